@@ -71,7 +71,8 @@ def deb_programs(thorough):
 
 
 def ar_programs(thorough):
-    """AutoRestartTrick: (params, bound) pairs.  `main` plays environment (child exits) and application (stop)."""
+    """AutoRestartTrick: (params, bound) pairs.  `app` plays environment (child exits) and application (stop); `disp` is
+    the observer's dispatcher thread."""
     out = []
 
     def opts(roe, deb, dos, ka=0.5):
@@ -83,28 +84,31 @@ def ar_programs(thorough):
     for o in allopts:
         seq = [["ev", "m"], ["settle"], ["exit"], ["settle"], ["ev", "x"], ["ev", "o"], ["ev", "v"], ["settle"], ["exit"],
                ["settle"], ["stop"]]
-        out.append((dict(o, fam="ar_seq", threads={"main": seq}), b_small))
-        out.append((dict(o, fam="ar_seq", threads={"main": [["ev", "m"], ["ev", "c"], ["ev", "m"], ["settle"]]}), b_small))
-        out.append((dict(o, fam="ar_seq", threads={"main": [["settle"], ["ev", "m"], ["settle"], ["stop"]]}), b_small))
+        out.append((dict(o, fam="ar_seq", threads={"app": seq}), b_small))
+        out.append((dict(o, fam="ar_seq", threads={"app": [["ev", "m"], ["ev", "c"], ["ev", "m"], ["settle"]]}), b_small))
+        out.append((dict(o, fam="ar_seq", threads={"app": [["settle"], ["ev", "m"], ["settle"], ["stop"]]}), b_small))
     # an event while the child exits by itself
     for o in allopts:
         if o["kill_after"] == 0 and not thorough:
             continue
-        out.append((dict(o, fam="ar_ev_exit", threads={"disp": [["ev", "m"]], "main": [["exit"], ["settle"], ["stop"]]}),
-                    2 if (thorough and not o["deb"]) else 1))
+        out.append((dict(o, fam="ar_ev_exit", threads={"disp": [["ev", "m"]], "app": [["exit"], ["settle"], ["stop"]]}),
+                    2 if (thorough and not o["deb"] and o["dos"]) else 1))
     # an event while stop() runs
     for o in allopts:
-        out.append((dict(o, fam="ar_ev_stop", threads={"disp": [["ev", "m"]], "main": [["stop"]]}), 2))
+        out.append((dict(o, fam="ar_ev_stop", threads={"disp": [["ev", "m"]], "app": [["stop"]]}),
+                    2 if (thorough and (not o["deb"] or (o["roe"] and o["dos"]))) else 1))
         if thorough:
-            out.append((dict(o, fam="ar_ev_stop", threads={"disp": [["ev", "m"], ["ev", "m"]], "main": [["sleep", 1], ["stop"]]}), 1))
+            out.append((dict(o, fam="ar_ev_stop", threads={"disp": [["ev", "m"], ["ev", "m"]], "app": [["sleep", 1], ["stop"]]}), 1))
     # the child exits by itself while stop() runs
     for o in allopts:
         if o["roe"]:
-            out.append((dict(o, fam="ar_exit_stop", threads={"main": [["exit"], ["stop"]]}), 2))
+            out.append((dict(o, fam="ar_exit_stop", threads={"app": [["exit"], ["stop"]]}), 2))
+            if thorough:
+                out.append((dict(o, fam="ar_exit_stop", threads={"env": [["exit"]], "app": [["stop"]]}), 2))
     # all three
     for o in allopts:
         if o["roe"] and (thorough or (o["dos"] and not o["deb"])):
-            out.append((dict(o, fam="ar_ev_exit_stop", threads={"disp": [["ev", "m"]], "main": [["exit"], ["stop"]]}), 1))
+            out.append((dict(o, fam="ar_ev_exit_stop", threads={"disp": [["ev", "m"]], "app": [["exit"], ["stop"]]}), 1))
     return out
 
 
@@ -113,11 +117,12 @@ def sh_programs(thorough):
     for wait in (False, True):
         for drop in (False, True):
             o = {"wait": wait, "drop": drop}
-            out.append((dict(o, fam="sh", threads={"disp": [["ev", "m"], ["ev", "m"], ["ev", "x"], ["ev", "m"]]}),
-                        2 if thorough else 1))
+            plain = not (wait or drop)   # nothing is demanded without either option: one schedule class is enough
+            b = 0 if plain else (2 if thorough else 1)
+            out.append((dict(o, fam="sh", threads={"disp": [["ev", "m"], ["ev", "m"], ["ev", "x"], ["ev", "m"]]}), b))
             out.append((dict(o, fam="sh", threads={"disp": [["ev", "m"], ["sleep", 1], ["ev", "o"], ["ev", "v"]],
-                                                   "env": [["exit"], ["sleep", 1], ["exit"]]}), 2 if thorough else 1))
-            if thorough:
+                                                   "env": [["exit"], ["sleep", 1], ["exit"]]}), b))
+            if thorough and not plain:
                 out.append((dict(o, fam="sh", threads={"disp": [["ev", "m"], ["ev", "m"], ["ev", "m"]],
                                                        "env": [["exit"], ["exit"]]}), 2))
     return out
@@ -126,13 +131,35 @@ def sh_programs(thorough):
 # ----------------------------------------------------------------------------- exploration plumbing
 
 
-def _dfs_one(args):
-    scen, params, bound = args
-    try:
-        n, recs = explore.dfs(scen, params, bound, jobs=1)
-    except explore.ExploreError as e:
-        return scen, params, bound, -1, str(e)
-    return scen, params, bound, n, recs
+def _dfs_all(programs, jobs, chunk=200):
+    """Bounded-preemption DFS over many programs on ONE process pool: a job explores at most `chunk` executions of
+    its sub-trees of one program and hands the unexplored stack entries back (harness.explore._dfs_job), so that
+    big and small programs share the workers evenly.  Returns [(executions, unique records)] per program."""
+    per = [[] for _ in programs]
+    queue = [(i, [[]]) for i in range(len(programs))]
+    pending = []
+    with mp.get_context("fork").Pool(jobs) as pool:
+        while queue or pending:
+            while queue and len(pending) < 3 * jobs:
+                i, st = queue.pop()
+                scen, params, bound = programs[i]
+                pending.append((i, pool.apply_async(explore._dfs_job, ((scen, params, bound, st, chunk),))))
+            done = [x for x in pending if x[1].ready()]
+            if not done:
+                pending[0][1].wait(0.02)
+                continue
+            for x in done:
+                pending.remove(x)
+                i, fut = x
+                n, recs, bad, left = fut.get()
+                per[i].append((n, recs, bad))
+                if left:
+                    k = max(1, min(len(left), 4))
+                    for j in range(k):
+                        part = left[j::k]
+                        if part:
+                            queue.append((i, part))
+    return [explore._merge(r) for r in per]
 
 
 def _tlc_design(c, jobs):
@@ -157,7 +184,7 @@ def _tlc_design(c, jobs):
                     c.machinery_failure(f"vacuity: actions never taken in {cfg}: {dead}")
             c.note(f"TLC {cfg}: {r.distinct} distinct states, depth {r.depth}, {r.wall:.1f}s")
         else:
-            if expect not in r.violated:
+            if expect not in r.violated and f"property {expect} was violated" not in r.output:
                 c.machinery_failure(f"vacuity: {cfg} did not violate {expect}: {r.violated} {r.errors[:2]}")
             c.note(f"TLC {cfg} (negative: the code as it is): {expect} refuted as expected, {r.distinct} states, {r.wall:.1f}s")
 
@@ -167,7 +194,7 @@ def run(c: checklib.Check):
     design = [
         ("Debouncer", f"Debouncer_{tier}.cfg", None, 4), ("Debouncer", "Debouncer_live.cfg", None, 2),
         ("Debouncer", "Debouncer_neg_D8.cfg", "C18_DeliveredWhenQuiet", 1),
-        ("Debouncer", "Debouncer_neg_D8_live.cfg", "Temporal", 1),
+        ("Debouncer", "Debouncer_neg_D8_live.cfg", "C18_ThreadExits", 1),
         ("AutoRestart", f"AutoRestart_{tier}.cfg", None, 8), ("AutoRestart", "AutoRestart_live.cfg", None, 4),
         ("AutoRestart", "AutoRestart_neg_one.cfg", "C18_AtMostOneChild", 2),
         ("AutoRestart", "AutoRestart_neg_alive.cfg", "C18_NothingAfterStop", 2),
@@ -195,26 +222,23 @@ def run(c: checklib.Check):
         fam_counts[fam] = fam_counts.get(fam, 0) + len(recs)
 
     bound_deb = 3 if c.thorough else 2
-    small = [(DEB, p, bound_deb) for p in deb_programs(c.thorough)]
-    big = []
-    for p, b in ar_programs(c.thorough):
-        (big if b >= 2 and p["fam"] in ("ar_ev_exit",) else small).append((AR, p, b))
-    for p, b in sh_programs(c.thorough):
-        small.append((SH, p, b))
-    small.sort(key=lambda x: -len(str(x[1])))
-    with mp.get_context("fork").Pool(c.jobs) as pool:
-        for scen, params, bound, n, recs in pool.imap_unordered(_dfs_one, small, chunksize=1):
-            if n < 0:
-                c.machinery_failure(f"scenario failed in the harness: {recs} {params}")
-            total += n
-            add(scen, params, recs, params["fam"])
-    c.note(f"dfs: {len(small)} programs (debouncer b={bound_deb}, tricks b=1/2), {total} executions, {len(traces)} distinct traces")
-    for scen, params, bound in big:
-        n, recs = explore.dfs(scen, params, bound, jobs=c.jobs)
+    programs = [(DEB, p, (bound_deb if p["fam"] == "deb_seq" else bound_deb - 1)) for p in deb_programs(c.thorough)]
+    programs += [(AR, p, b) for p, b in ar_programs(c.thorough)]
+    programs += [(SH, p, b) for p, b in sh_programs(c.thorough)]
+    try:
+        results = _dfs_all(programs, c.jobs)
+    except explore.ExploreError as e:
+        c.machinery_failure(str(e))
+    per_fam = {}
+    for (scen, params, bound), (n, recs) in zip(programs, results):
         total += n
         add(scen, params, recs, params["fam"])
-        c.note(f"dfs b={bound} {params['fam']} roe={params['roe']} deb={params['deb']} dos={params['dos']}: {n} executions, "
-               f"{len(recs)} distinct traces")
+        a = per_fam.setdefault(params["fam"], [0, 0, 0])
+        a[0] += 1
+        a[1] += n
+        a[2] += len(recs)
+    c.note("dfs (debouncer b=%d/%d, tricks b=1/2): %d programs, %d executions, %d distinct traces; per family "
+           "[programs, executions, traces]: %s" % (bound_deb, bound_deb - 1, len(programs), total, len(traces), per_fam))
     # random programs x random / PCT schedules, attribute accesses of the trick as yield points
     nrand = 4000 if c.thorough else 600
     base = c.seed * 1000003
@@ -240,27 +264,37 @@ def run(c: checklib.Check):
                      "event / self-exit / stop pairwise and all three concurrent, with and without debounce, "
                      "restart_on_command_exit, die-on-signal / kill-after path; shell command: wait / drop x events during a "
                      "run) + %d random programs with random and PCT schedules; distinct = distinct black-box traces; "
-                     "per family: %s" % (len(small) + len(big), 3 * nrand, fam_counts))
+                     "per family: %s" % (len(programs), 3 * nrand, fam_counts))
 
     # ---- validation (Level P), then classification of the failures
-    chunk = max(40, len(traces) // (c.jobs * 2) + 1)
-    verdicts, stats = tlc.validate_traces("TricksTrace", "TricksTrace.cfg", traces, chunk=chunk, parallel=c.jobs)
-    c.add_trace_stats("TricksTrace", len(traces), stats)
-    c.cov["states"] += stats["distinct"]
-    c.cov["transitions"] += stats["generated"]
-    failing = [i for i, v in enumerate(verdicts) if not v["accepted"]]
-    relaxed = {}
-    if failing:
-        v2, st2 = tlc.validate_traces("TricksTrace", "TricksTrace_D8.cfg", [traces[i] for i in failing],
-                                      chunk=max(40, len(failing) // c.jobs + 1), parallel=c.jobs)
-        c.add_trace_stats("TricksTrace:AllowD8", 0, st2)
-        relaxed = dict(zip(failing, v2))
+    def validate(cfg, idx, count=False):
+        trs = [traces[i] for i in idx]
+        if not trs:
+            return {}
+        vs, st = tlc.validate_traces("TricksTrace", cfg, trs, chunk=max(40, len(trs) // (c.jobs * 2) + 1), parallel=c.jobs)
+        c.add_trace_stats("TricksTrace:" + cfg, len(trs) if count else 0, st)
+        c.cov["states"] += st["distinct"]
+        c.cov["transitions"] += st["generated"]
+        return dict(zip(idx, vs))
+
+    def complete(v):
+        return v["accepted"] or bool(v["viol"])
+
+    # 1. as the property states it; an arrival order that does not fit the batches is not an explanation (HardOrder)
+    strict = validate("TricksTrace.cfg", list(range(len(traces))), count=True)
+    # 2. no explanation at all: let the batch clause fail softly to learn which clauses fail
+    soft = validate("TricksTrace_soft.cfg", [i for i, v in strict.items() if not complete(v)])
+    strict.update(soft)
+    failing = [i for i, v in strict.items() if not v["accepted"]]
+    # 3. the failures once more, excusing what the recorded finding D8 explains
+    relaxed = validate("TricksTrace_D8.cfg", [i for i in failing if i not in soft])
+    relaxed.update(validate("TricksTrace_D8_soft.cfg", [i for i in failing if i in soft]))
     nviol = {}
-    for i in failing:
-        v, r = verdicts[i], relaxed[i]
+    for i in sorted(failing):
+        v, r = strict[i], relaxed[i]
         rp = dict(meta[i])
         rp["trace"] = traces[i]
-        rp["trace_spec"] = ["TricksTrace", "TricksTrace.cfg"]
+        rp["trace_spec"] = ["TricksTrace", "TricksTrace_soft.cfg"]
         fam = meta[i]["family"]
         if not v["viol"]:
             line = traces[i][v["furthest"] - 1] if 0 < v["furthest"] <= len(traces[i]) else None
